@@ -346,7 +346,7 @@ func txPool(r *vk.Run) []txFile {
 func c20transmit(r *vk.Run, col *collector, merge func(map[string]int)) {
 	pool := txPool(r)
 	r.Count("transmit_pool_size", int64(len(pool)))
-	nSets := r.Pick(320, 6000)
+	nSets := r.Pick(320, 2000)
 	scratch := r.Scratch()
 	var wg sync.WaitGroup
 	var sampleOnce sync.Once
@@ -379,6 +379,11 @@ func c20transmit(r *vk.Run, col *collector, merge func(map[string]int)) {
 					// More literal data than one maximum data operation plus a block: reaches
 					// the buffer-truncation site and runs of data operations with the default maximum.
 					b := randomBlob(rng, 1+rng.Intn(64))
+					for i := range b { // the literal tail below must not match any block of the base
+						if b[i] == 0xfe || b[i] == 0x01 || b[i] == 0x7f {
+							b[i] = 'q'
+						}
+					}
 					files = append(files, txFile{Base: b, HasBase: true, BS: uint64(1 + rng.Intn(16)),
 						Target: append(append([]byte{}, b...), bytes.Repeat([]byte{0xfe, 0x01, 0x7f}, (140<<10)/3+rng.Intn(1000))...)})
 				}
@@ -504,6 +509,12 @@ func c20transmitSet(r *vk.Run, col *collector, e *rsync.Engine, dir string, set 
 	}
 	if len(infos) != len(base.queue) {
 		r.Inconclusive("message-classification-mismatch")
+		return 0
+	}
+	if len(infos) > 600 {
+		// Every message index is a fault point and every fault point is a full transfer:
+		// keep the quadratic cost bounded (a pure function of the generated input).
+		r.Count("transmit_sets_skipped_over_600_messages", 1)
 		return 0
 	}
 	sampleOnce.Do(func() {
